@@ -135,7 +135,19 @@ HelperOK(c) == LET o == H!HelperOutcome(c.name, c.dirs, LAMBDA p : p \in SetOfSe
                /\ (o.code = 0 => c.ran = 1 /\ c.argv = o.argv)
                /\ (o.code # 0 => c.ran = 0)
 
-CaseOK(c) == CASE c.k = "helper" -> HelperOK(c) [] c.k = "auth" -> AuthOK(c) [] c.k = "otree" -> OTreeOK(c) [] c.k = "pcall" -> PCallOK(c) [] c.k = "build" -> BuildOK(c) [] c.k = "edit" -> EditOK(c) [] c.k = "syn" -> SynOK(c) [] c.k = "dem" -> DemOK(c) [] c.k = "chunk" -> ChunkOK(c)
+\* ---- several threads on one connection (C17): every call completes exactly once -- with its own reply, promptly once
+\* the peer has written it (the bounded form of PendingCall.tla's EventuallyCompleted), or with the local timeout
+\* error when the peer stays silent; notifications never exceed one; serials are non-zero and distinct ----
+ThrSlack == 4000
+ThrCallOK(c) ==
+  /\ c.comp = 1 /\ c.n <= 1 /\ c.done >= 0 /\ c.ser # 0 /\ c.rs = c.ser
+  /\ IF c.answered = 1 /\ c.wrote >= 0
+     THEN c.kind = 2 /\ c.done - c.wrote <= ThrSlack
+     ELSE c.kind = 3 /\ c.done - c.sent >= c.timeout - 50 /\ c.done - c.sent <= c.timeout + ThrSlack
+PthrOK(c) == /\ \A i \in 1..Len(c.calls) : ThrCallOK(c.calls[i])
+             /\ \A i, j \in 1..Len(c.calls) : i # j => c.calls[i].ser # c.calls[j].ser
+
+CaseOK(c) == CASE c.k = "pthr" -> PthrOK(c) [] c.k = "helper" -> HelperOK(c) [] c.k = "auth" -> AuthOK(c) [] c.k = "otree" -> OTreeOK(c) [] c.k = "pcall" -> PCallOK(c) [] c.k = "build" -> BuildOK(c) [] c.k = "edit" -> EditOK(c) [] c.k = "syn" -> SynOK(c) [] c.k = "dem" -> DemOK(c) [] c.k = "chunk" -> ChunkOK(c)
 BadCases == {i \in 1..Len(Log) : ~CaseOK(Log[i])}
 \* evaluated in Next (worker thread: honours -Xss), not in Init (main thread)
 Init == x = 0
